@@ -94,7 +94,7 @@ def run(ctx):
     jobs = []
     for ci, cfg in enumerate(cfgs):
         main = ci < 3
-        n = ctx.scale(8, 80) if main else ctx.scale(3, 30)
+        n = ctx.scale(6, 80) if main else ctx.scale(2, 30)
         for lf in L.TYPES:
             for i in range(n):
                 trig = i % 6 == 0 and lf != (64, 32) or (ctx.thorough and i % 10 == 0)
